@@ -693,6 +693,11 @@ func (e *Env) evalCall(n *gen.Node) (Val, bool) {
 		}
 		return Text(strings.Join(parts, a0.S)), true
 	case "len":
+		if a0.K == VJson {
+			if arr, ok := a0.J.([]any); ok {
+				return IntV(int64(len(arr))), true
+			}
+		}
 		if a0.K != VList {
 			return e.undef("len of non-list")
 		}
@@ -838,6 +843,18 @@ func CompareCols(tp byte, a, b string) (int, bool) {
 		}
 		return bytes.Compare([]byte(as), []byte(bs)), true
 	case 'N':
+		// two integers are compared exactly (float64 cannot tell 2^53 from 2^53+1)
+		if ai, ok := colInt(a); ok {
+			if bi, ok := colInt(b); ok {
+				switch {
+				case ai < bi:
+					return -1, true
+				case ai > bi:
+					return 1, true
+				}
+				return 0, true
+			}
+		}
 		af, ok1 := colNum(a)
 		bf, ok2 := colNum(b)
 		if !ok1 || !ok2 {
@@ -897,6 +914,24 @@ func colNum(n string) (float64, bool) {
 		if v, ok := PlainFloat(s); ok {
 			return v, true
 		}
+	}
+	return 0, false
+}
+
+func colInt(n string) (int64, bool) {
+	if len(n) < 2 {
+		return 0, false
+	}
+	switch n[0] {
+	case 'I':
+		v, err := strconv.ParseInt(n[1:], 10, 64)
+		return v, err == nil
+	case 'T':
+		s, ok := unText(n)
+		if !ok {
+			return 0, false
+		}
+		return PlainInt(s)
 	}
 	return 0, false
 }
